@@ -361,6 +361,17 @@ def _o5(ctx, result):
                 continue
             if verdict == "init" and module.name == OPT and qual == "<module>":
                 continue
+            if verdict == "assigned to another name" and qual != "<module>":
+                # a local alias: fine if the alias itself is only read / copied afterwards
+                stmt = parent
+                while stmt is not None and not isinstance(stmt, (ast.Assign, ast.AnnAssign)):
+                    stmt = getattr(stmt, "_parent", None)
+                targets = stmt.targets if isinstance(stmt, ast.Assign) else ([stmt.target] if stmt is not None else [])
+                alias_names = {t.id for t in targets if isinstance(t, ast.Name)}
+                uses = [n for n in ast.walk(func) if isinstance(n, ast.Name) and n.id in alias_names and isinstance(n.ctx, ast.Load)]
+                if alias_names and uses and all(_classify_use(u, getattr(u, "_parent", None)) == "read" for u in uses):
+                    result.ob(f"O5 {where} {qual}: local alias of {name.split('.')[-1]} is only read", True, where, "")
+                    continue
             result.ob(f"O5 {where} {qual}: {verdict} of {name.split('.')[-1]}", False, where, "")
             result.add(Finding(
                 "R-OPT", module, qual, parent if parent is not None else node,
@@ -383,6 +394,27 @@ def _module_level_nodes(tree):
 
 
 def _classify_use(node, parent) -> str:
+    # conditional expressions / boolean operators are transparent: what matters is where their value goes
+    while isinstance(parent, (ast.IfExp, ast.BoolOp)) and not (isinstance(parent, ast.IfExp) and parent.test is node):
+        node, parent = parent, getattr(parent, "_parent", None)
+    if isinstance(parent, ast.IfExp):
+        return "read"  # used as a truth value only
+    if not hasattr(node, "ctx"):
+        if isinstance(parent, ast.Call) and node in parent.args:
+            fname = U(parent.func)
+            if fname in ("dict", "len", "set", "sorted", "list", "tuple", "frozenset", "copy.copy", "copy.deepcopy"):
+                return "read"
+            return f"argument of {fname}"
+        if isinstance(parent, ast.Attribute) and parent.value is node:
+            grand = getattr(parent, "_parent", None)
+            if isinstance(grand, ast.Call) and grand.func is parent and parent.attr in ("copy", "get", "keys", "items", "values"):
+                return "read"
+            return "alias via ." + parent.attr
+        if isinstance(parent, ast.Return):
+            return "returned"
+        if isinstance(parent, (ast.Assign, ast.AnnAssign)):
+            return "assigned to another name"
+        return "used in " + type(parent).__name__
     if isinstance(node.ctx, (ast.Store, ast.Del)):
         if isinstance(parent, (ast.Assign, ast.AnnAssign)) and isinstance(getattr(parent, "_parent", None), ast.Module):
             return "init"
@@ -422,19 +454,16 @@ def _classify_use(node, parent) -> str:
 # ---------------------------------------------------------------------------
 # O6 / O7 / O8
 
+# option-key prefix -> modules whose code may read it (module granularity: a private helper extracted
+# from an allowed function stays in its module)
+_ORDERING = ("greater", "greater_equal", "less", "less_equal", "maximum", "minimum", "amax", "amin", "argmax", "argmin")
 LAYERS = {
-    "display_": {"numpoly.array_function.array_repr._to_string"},
-    "sort_": {
-        f"numpoly.array_function.{n}.{n}"
-        for n in ("greater", "greater_equal", "less", "less_equal", "maximum", "minimum",
-                  "amax", "amin", "argmax", "argmin")
-    },
-    "retain_": {"numpoly.construct.clean.postprocess_attributes"},
-    "default_varname": {
-        "numpoly.baseclass.ndpoly.__new__", "numpoly.construct.variable.variable",
-        "numpoly.poly_function.set_dimensions.set_dimensions", "numpoly.align.align_indeterminants",
-    },
-    "varname_filter": {"numpoly.baseclass.ndpoly.__new__"},
+    "display_": {"numpoly.array_function.array_repr"},
+    "sort_": {f"numpoly.array_function.{n}" for n in _ORDERING},
+    "retain_": {"numpoly.construct.clean"},
+    "default_varname": {"numpoly.baseclass", "numpoly.construct.variable", "numpoly.poly_function.set_dimensions",
+                        "numpoly.align"},
+    "varname_filter": {"numpoly.baseclass"},
     "force_number_suffix": set(),
 }
 
@@ -449,6 +478,15 @@ def option_reads(ctx, module, func):
                 for target in node.targets:
                     if isinstance(target, ast.Name):
                         aliases.add(target.id)
+    changed = True
+    while changed:  # aliases of aliases (parameter bindings of inlined helpers, temporaries)
+        changed = False
+        for node in ast.walk(func):
+            if isinstance(node, ast.Assign) and isinstance(node.value, ast.Name) and node.value.id in aliases:
+                for target in node.targets:
+                    if isinstance(target, ast.Name) and target.id not in aliases:
+                        aliases.add(target.id)
+                        changed = True
     reads = []
     for node in ast.walk(func):
         if isinstance(node, ast.Subscript) and isinstance(node.ctx, ast.Load):
@@ -504,12 +542,12 @@ def _o6(ctx, result):
                                    f"O6: reads option '{key}' which is not in GLOBAL_OPTIONS_DEFAULTS (KeyError)"))
                 continue
             prefix, allowed = _layer_of(key)
-            ok = fq in allowed
+            ok = module.name in allowed
             result.ob(f"O6 {fq} may read '{key}'", ok, where, "")
             if not ok:
                 result.add(Finding(
                     "R-OPT", module, qual, node,
-                    f"O6: option '{key}' is read in {fq}; '{prefix}*' options may only influence "
+                    f"O6: option '{key}' is read in {fq}; '{prefix}*' options may only be read by "
                     f"{sorted(a.split('.')[-1] for a in allowed) or 'nothing'} - here it can change "
                     f"the mathematical result"))
                 continue
@@ -589,7 +627,7 @@ def _o7(ctx, result):
                 continue
             n += 1
             if from_options:
-                family = "display_" if fq.endswith("._to_string") else "sort_"
+                family = "display_" if module.name == "numpoly.array_function.array_repr" else "sort_"
                 problems = []
                 for pname in ("graded", "reverse"):
                     key = keys.get(pname)
